@@ -182,10 +182,10 @@ def check_case(n, edges, kinds, guards, perms, acc=None):
         # identity order: both set-iteration orders; other storage orders alternate between them
         for dep_rev in ((False, True) if pi == 0 else ((pi % 2 == 1),)):
             try:
-                with kernel.time_limit(20):
+                with kernel.time_limit(120):
                     tree, clo = lower(n, edges, kinds, guards, perm, dep_rev)
             except kernel.Budget:
-                return ("budget", "create_ast_from_phase did not terminate within 20 s", perm, dep_rev)
+                return ("budget", "create_ast_from_phase did not terminate within 120 s", perm, dep_rev)
             except Exception as e:
                 return ("exception(%s)" % type(e).__name__, "create_ast_from_phase: %s: %s" % (
                     type(e).__name__, e), perm, dep_rev)
